@@ -25,11 +25,14 @@ Arguments SqT {X} x. Arguments SqScalar {X} v.
 
 (* ---------------- dense (tensor.py) ---------------- *)
 
-(* tensor.permute: size check; empty order and the `(order == 1).all()` shortcut return a copy;
-   otherwise np.transpose (which rejects non-permutations) + F re-layout *)
+(* tensor.permute (as repaired by /repo 072fe0a): size check; the empty order returns a copy; the
+   `(order == 1).all()` shortcut is taken only when ndims == 1 (order [1] on a 1-way tensor returns a copy: residue of
+   A-28, reported under C19); every other order must satisfy sort(order) == arange(ndims), else "Invalid permutation
+   order"; then np.transpose + F re-layout *)
 Definition permute_d (T : dense V) (p : list nat) : option (dense V) :=
   if negb (Nat.eqb (length p) (length (dshape T))) then None
-  else if forallb (Nat.eqb 1) p then Some T
+  else if Nat.eqb (length p) 0 then Some T
+  else if Nat.eqb (length (dshape T)) 1 && forallb (Nat.eqb 1) p then Some T
   else if is_permb p (length (dshape T)) then Some (np_transpose v0 T p) else None.
 
 (* tensor.reshape: element-count check, then data.reshape(shape, order="F") *)
